@@ -35,7 +35,7 @@ static_assert(P::IsModelEigen<SModel> && P::IsModelEigen<PModel>);
 
 static uint64_t g_seed = 0;
 static const long NSOLV = 7;        // blind, fib+qmdp, pbvi, perseus, sarsop, gapmin, kernels(bestConservative/bestPromising)
-static const long NFIXED = 19;      // hand-written witness / regression POMDPs come first (10, 11: GapMin regression instances)
+static const long NFIXED = 20;      // hand-written witness / regression POMDPs come first (10, 11: GapMin regression instances)
 
 struct Inst {
     PomdpTables t;
@@ -149,6 +149,19 @@ static Inst fixedInst(long k) {
         for (size_t a = 1; a < 3; ++a) for (size_t s = 3; s < 5; ++s) { t.T[a](s, 3) = 0.5; t.T[a](s, 4) = 0.5; t.Ob[a](s, 0) = 0.5; t.Ob[a](s, 1) = 0.5; }
         t.R(3, 0) = 1.0; t.R(4, 0) = 1.0; t.R(3, 1) = 0.0; t.R(4, 1) = 8.0; t.R(3, 2) = 8.0; t.R(4, 2) = 0.0;
         I.b0 = vec({0.25, 0.125, 0.125, 0.25, 0.25}); I.shape = "fixed_cutoff_witness"; I.gapDigits = 7;
+        break;
+    }
+    // Lower-side cut-off witness: under action 0 the observation 1 has probability 2^-21 <= equalToleranceSmall in EVERY successor state, so
+    // Projecter::computePossibleObservations flags the pair impossible and its projection is the bare reward share: the continuation term
+    // gamma * T (O . v) of that observation is dropped. With negative values the dropped term is negative, so every backed-up vector of
+    // action 0 is too HIGH (by gamma * 2^-21 * |v| = 1.9e-6 from the second timestep on).
+    case 19: {
+        PomdpTables & t = I.t; t.S = 2; t.A = 2; t.O = 2; t.discount = 0.5;
+        t.T.assign(2, AIToolbox::Matrix2D::Constant(2, 2, 0.5)); t.Ob.assign(2, AIToolbox::Matrix2D::Zero(2, 2)); t.R = AIToolbox::Matrix2D::Zero(2, 2);
+        const double p = std::ldexp(1.0, -21);
+        for (size_t s = 0; s < 2; ++s) { t.Ob[0](s, 0) = 1.0 - p; t.Ob[0](s, 1) = p; t.R(s, 0) = -8.0; t.R(s, 1) = -9.0; }
+        t.Ob[1](0, 0) = 0.875; t.Ob[1](0, 1) = 0.125; t.Ob[1](1, 0) = 0.125; t.Ob[1](1, 1) = 0.875;
+        I.b0 = vec({0.5, 0.5}); I.shape = "fixed_cutoff_witness_lower"; I.gapDigits = 4;
         break;
     }
     default: {
